@@ -209,7 +209,7 @@ func (e *Env) Exec(s *Script) *Result {
 		// read the whole request): bidi scripts, whose back-end may reply
 		// while messages are outstanding, go over h2c.
 		hc := e.HC
-		if s.Shape == "bidi" {
+		if s.Shape == "bidi" || hasThink(s.Client) {
 			hc = e.H2
 		}
 		res.ProxyC = runHTTP(pctx, hc, e.Front.URL, s, pid)
